@@ -1,4 +1,6 @@
 """C02 - ordered super-reconciliation returns a minimum-cost labelled reconciliation."""
+from hypothesis import strategies as st
+
 from .. import gen, pkg
 from ..plain import INF, Instance, labeling_losses
 from ..runner import Result, Violation
@@ -42,7 +44,19 @@ EXHAUSTIVE_RULE = {
 EXHAUSTIVE_COMPLETE = False  # the random layer is not exhaustive
 
 
+@st.composite
+def _with_large(draw, small):
+    if gen.chance(draw, 1, 12):
+        # beyond plain enumeration: 6..8 object leaves, 3..6 species leaves, policy ANY, decided by the recursion oracle
+        case = draw(gen.rec_case(max_obj=8, max_sp=6, min_obj=6, min_sp=3, costs="coherent", labelled=True, max_fam=4, prescribed_root=True))
+        case["_large"] = True
+        return case
+    return draw(small)
+
+
 def strategy(tier):
+    if tier == "quick":
+        return _with_large(gen.rec_case(max_obj=5, max_sp=4, costs="coherent", labelled=True, max_fam=4, prescribed_root=True))
     if tier == "thorough":
         # beyond plain enumeration's comfort zone: the recursion oracle decides, cross-checked where enumeration still fits
         return gen.rec_case(max_obj=7, max_sp=6, costs="coherent", labelled=True, max_fam=4, prescribed_root=True)
@@ -77,11 +91,14 @@ def check(case):
     proot = prescribed_root_of(inst)
     if proot is not None:
         labels.append("prescribed_root")
-    opt_ext, set_ext = reference(inst, "ordered", labels=labels)
+    large = bool(case.get("_large"))
+    if large:
+        labels.append("large")
+    opt_ext, set_ext = reference(inst, "ordered", labels=labels, want_set=not large)
     opt_base, _ = reference(inst, "ordered", restrict_lca=True, want_set=False)
     inp = pkg.make_input(case, labelled=True)
     for algo, opt in (("ext_spfs", opt_ext), ("base_spfs", opt_base)):
-        for policy in ("ALL", "ANY"):
+        for policy in ("ANY",) if large else ("ALL", "ANY"):
             outs = pkg.run_algo(algo, inp, policy)
             if opt is None:
                 if outs:
